@@ -148,6 +148,7 @@ func (b *prefixBatch) Put(key, value []byte) error {
 }
 
 func (b *prefixBatch) Write() error {
+	verifC05Write(b.db, "batch", nil, b.b.Len())
 	return b.db.Write(b.b, nil)
 }
 
